@@ -589,7 +589,8 @@ Fixpoint group_items (its : list (Z * ditem)) : list dgroup :=
     end
   end.
 
-(* well-formed input: u16 ids, ascending type ids, i32 words, bytes, everything below 2 GiB *)
+(* well-formed input: u16 ids, ascending type ids, i32 words, bytes, the file and each
+   (uncompressed) data item below 2 GiB *)
 Fixpoint ascending (prev : Z) (l : list Z) : bool :=
   match l with
   | [] => true
@@ -603,4 +604,5 @@ Definition serialized_size (ver : Z) (gs : list dgroup) (stored : list (bytes * 
 Definition wf_input (compress : bytes -> bytes) (ver : Z) (gs : list dgroup) (datas : list bytes) : bool :=
   forallb dgroup_wf gs && ascending (-1) (map fst gs)
   && forallb bytes_ok datas && forallb (fun d => bytes_ok (compress d)) datas
+  && forallb (fun d => zlen d <=? i32_max) datas
   && (serialized_size ver gs (stored_of compress ver datas) <=? i32_max).
